@@ -822,3 +822,41 @@ Theorem C19_buf_fetch_bytes_agrees_generated : forall b len,
       = Ok (st, cb_off b').
 Proof. exact buf_fetch_bytes_agrees_generated. Qed.
 Print Assumptions C19_buf_fetch_bytes_agrees_generated.
+
+(* ---- array / skip list: hand model = text generated from the C source, where the function
+   fits the translator (gen/leaf.d/C19_dsa.txt lists what does not and why) ---- *)
+From CAres.Dsa Require Import Dsa_gen_agree SList.
+
+(* ares_array_set_size: same status and final alloc_cnt for every size, array and allocator
+   answer (ares_round_up_pow2's value as the model computes it; newptr = ares_realloc_zero's
+   non-NULL answer) *)
+Theorem C19_array_set_size_agrees_generated : forall (ok : bool) (a : arr) (size : nat) (msz ptr newptr : Z),
+  newptr <> 0%Z ->
+  exists st alloc' ptr',
+    c_ares_array_set_size (Z.of_nat size) (Z.of_nat (a_cnt a)) (Z.of_nat (round_up_pow2 size))
+                          (Z.of_nat (alloc_cnt a)) msz (if ok then newptr else 0%Z) ptr
+      = Ok (st, alloc', ptr') /\
+    arr_status (arr_set_size ok a size) = Some st /\
+    alloc' = Z.of_nat (match arr_set_size ok a size with Ok a' => alloc_cnt a' | _ => alloc_cnt a end) /\
+    a_cnt (match arr_set_size ok a size with Ok a' => a' | _ => a end) = a_cnt a.
+Proof. exact arr_set_size_agrees_generated. Qed.
+Print Assumptions C19_array_set_size_agrees_generated.
+
+Theorem C19_array_remove_last_agrees_generated : forall a : arr,
+  arr_status (arr_remove_at a (a_cnt a - 1)) <> None ->
+  exists st,
+    arr_status (arr_remove_last a) = Some st /\
+    forall st_at, arr_status (arr_remove_at a (a_cnt a - 1)) = Some st_at ->
+      c_ares_array_remove_last (Z.of_nat (arr_len a)) st_at = Ok st.
+Proof. exact arr_remove_last_agrees_generated. Qed.
+Print Assumptions C19_array_remove_last_agrees_generated.
+
+(* ares_slist_max_level, the bound on the level a new skip-list node may get *)
+Theorem C19_slist_max_level_agrees_generated : forall cnt levels : nat,
+  (Z.of_nat cnt + 1 < 2 ^ 64)%Z ->
+  c_ares_slist_max_level (Z.of_nat cnt) (Z.of_nat levels)
+                         (Z.of_nat (sl_round_up_pow2 (cnt + 1)))
+                         (Z.of_nat (sl_log2 (sl_round_up_pow2 (cnt + 1))))
+  = Ok (Z.of_nat (sl_max_level cnt levels)).
+Proof. exact sl_max_level_agrees_generated. Qed.
+Print Assumptions C19_slist_max_level_agrees_generated.
